@@ -37,6 +37,11 @@ type Step struct {
 	Op string `json:"op"` // "ok" | "err" | "cancel"
 	I  int    `json:"i,omitempty"`
 	V  int    `json:"v,omitempty"` // value (ok) or error number (err)
+	// W (op "err"): what the error of the failing call wraps (errors.Is / errors.Unwrap): 0 nothing,
+	// 1 context.Canceled, 2 context.DeadlineExceeded - a call that fails for reasons of its own with an
+	// error that *looks like* a context error although neither the caller's context nor the one handed
+	// to f has ended. To the library (and to the model: "end i err k") it is an error like any other.
+	W int `json:"w,omitempty"`
 }
 
 type Scenario struct {
@@ -52,6 +57,7 @@ type Scenario struct {
 	LatSeed    uint64 `json:"lat_seed,omitempty"`
 	LatMax     int    `json:"lat_max,omitempty"`
 	Fail       []int  `json:"fail,omitempty"`        // failing indices (error number = index+1)
+	FailWrap   int    `json:"fail_wrap,omitempty"`   // what the errors of the failing calls wrap (Step.W)
 	CancelAt   int    `json:"cancel_at,omitempty"`   // virtual ms; -1 already cancelled; 0 never
 	CancelKind string `json:"cancel_kind,omitempty"` // "cancel" | "deadline"
 }
@@ -85,9 +91,34 @@ func (sc *Scenario) latency(i int) time.Duration {
 // ---------------------------------------------------------------------------------------------
 // instrumented f
 
-type callErr struct{ k int }
+type callErr struct {
+	k    int
+	wrap error // nil, context.Canceled or context.DeadlineExceeded (Step.W)
+}
 
-func (e *callErr) Error() string { return fmt.Sprintf("call error %d", e.k) }
+func (e *callErr) Error() string {
+	if e.wrap != nil {
+		return fmt.Sprintf("call error %d (lookup abandoned: %v)", e.k, e.wrap)
+	}
+	return fmt.Sprintf("call error %d", e.k)
+}
+
+func (e *callErr) Unwrap() error { return e.wrap }
+
+// mkErr: error number k wrapping what w says (Step.W).
+func mkErr(k, w int) *callErr {
+	switch w {
+	case 1:
+		return &callErr{k, context.Canceled}
+	case 2:
+		return &callErr{k, context.DeadlineExceeded}
+	}
+	return &callErr{k, nil}
+}
+
+func wrapName(w int) string {
+	return [...]string{"nothing", "context.Canceled", "context.DeadlineExceeded"}[w%3]
+}
 
 type gateRes struct {
 	v   int
@@ -189,7 +220,7 @@ func (e *env) body(c *call) gateRes {
 	}
 	for _, f := range e.sc.Fail {
 		if f == c.idx && e.sc.ctxMode() {
-			return gateRes{err: &callErr{c.idx + 1}}
+			return gateRes{err: mkErr(c.idx+1, e.sc.FailWrap)}
 		}
 	}
 	return gateRes{v: 100 + c.idx}
@@ -439,7 +470,16 @@ func (e *env) finalMonitors() {
 	}
 	if sc.ctxMode() {
 		if anyFail && e.retErr == nil {
-			e.viol("error-swallowed", "a call of f returned an error but the result is nil", nil)
+			what, wp := "a call of f returned an error but the result is nil", map[string]interface{}{}
+			for _, c := range e.calls {
+				var ce *callErr
+				if c.res.err != nil && errors.As(c.res.err, &ce) && ce.wrap != nil {
+					what = fmt.Sprintf("call %d of f returned %q (an error of its own that wraps %v; the caller's context when the call returned: %s) but the result is nil", c.idx, c.res.err, ce.wrap, map[bool]string{false: "live", true: "ended"}[e.callerDoneAtReturn])
+					wp["f_error_wraps"] = fmt.Sprint(ce.wrap)
+					break
+				}
+			}
+			e.viol("error-swallowed", what, wp)
 		}
 		if e.retErr != nil {
 			ok := false
@@ -610,7 +650,7 @@ func (e *env) bubble(t *testing.T, sc *Scenario, r *vlib.Rand, maxSteps int, out
 					target.gate <- gateRes{v: st.V}
 					out.Lines = append(out.Lines, fmt.Sprintf("end %d ok %d", st.I, st.V))
 				} else {
-					target.gate <- gateRes{err: &callErr{st.V}}
+					target.gate <- gateRes{err: mkErr(st.V, st.W)}
 					out.Lines = append(out.Lines, fmt.Sprintf("end %d err %d", st.I, st.V))
 				}
 				return true
@@ -644,7 +684,7 @@ func (e *env) bubble(t *testing.T, sc *Scenario, r *vlib.Rand, maxSteps int, out
 				st = Step{Op: "cancel"}
 			case sc.ctxMode() && r.Chance(1, 6):
 				c := o[r.Intn(len(o))]
-				st = Step{Op: "err", I: c.idx, V: c.idx + 1}
+				st = Step{Op: "err", I: c.idx, V: c.idx + 1, W: []int{0, 0, 1, 1, 2}[r.Intn(5)]}
 			default:
 				// late items first more often than not
 				c := o[len(o)-1]
@@ -750,6 +790,9 @@ func genTimed(r *vlib.Rand, big bool) *Scenario {
 		if len(sc.Fail) > 300 {
 			sc.Fail = sc.Fail[:300]
 		}
+		if len(sc.Fail) > 0 && r.Chance(1, 2) {
+			sc.FailWrap = r.Range(1, 2)
+		}
 		switch r.Intn(6) {
 		case 0:
 			sc.CancelAt = -1
@@ -819,6 +862,21 @@ func check(t *testing.T, sc *Scenario, r *vlib.Rand, m *vlib.Model, res *vlib.Re
 				}
 				return false
 			})
+			// an error that wraps nothing where the failure does not depend on what it wraps
+			for i := range steps {
+				if steps[i].W != 0 {
+					alt := append([]Step(nil), steps...)
+					alt[i].W = 0
+					s3 := *sc
+					s3.Steps = alt
+					for _, v2 := range runScenario(t, &s3, nil, 0).Viols {
+						if v2.Kind == v.Kind {
+							steps = alt
+							break
+						}
+					}
+				}
+			}
 			s2 := *sc
 			s2.Steps = steps
 			small = &s2
@@ -906,6 +964,9 @@ func shrinkTimed(t *testing.T, sc *Scenario, kind string) *Scenario {
 		}
 		if len(cur.Fail) > 0 {
 			try(func(c *Scenario) { c.Fail = nil })
+		}
+		if cur.FailWrap != 0 {
+			try(func(c *Scenario) { c.FailWrap = 0 })
 		}
 		if len(cur.Fail) > 1 {
 			try(func(c *Scenario) { c.Fail = c.Fail[:1] })
@@ -996,12 +1057,16 @@ func directedCancelOthers() []Scenario {
 			for pre := 0; pre <= 1 && pre+eff <= n; pre++ {
 				// after `pre` successful returns of call 0.., the calls in progress are pre .. pre+eff-1
 				for k := pre; k < pre+eff; k++ {
-					sc := Scenario{Kind: "script", Mode: mode, P: p, N: n, Gmp: gmp}
-					for i := 0; i < pre; i++ {
-						sc.Steps = append(sc.Steps, Step{Op: "ok", I: i, V: 100 + i})
+					// w: the failing call's error wraps nothing / context.Canceled / context.DeadlineExceeded
+					// (the first failure, caller's context live: that error is what has to come back)
+					for w := 0; w <= 2; w++ {
+						sc := Scenario{Kind: "script", Mode: mode, P: p, N: n, Gmp: gmp}
+						for i := 0; i < pre; i++ {
+							sc.Steps = append(sc.Steps, Step{Op: "ok", I: i, V: 100 + i})
+						}
+						sc.Steps = append(sc.Steps, Step{Op: "err", I: k, V: k + 1, W: w})
+						out = append(out, sc)
 					}
-					sc.Steps = append(sc.Steps, Step{Op: "err", I: k, V: k + 1})
-					out = append(out, sc)
 				}
 			}
 		}
@@ -1028,6 +1093,20 @@ func TestVerif(t *testing.T) {
 			fmt.Println("cannot read replay:", err)
 			os.Exit(2)
 		}
+		if sc.Kind == "stress" {
+			var st StressCase
+			if err := vlib.ReplayCase(env.Replay, &st); err != nil {
+				fmt.Println("cannot read replay:", err)
+				os.Exit(2)
+			}
+			fmt.Printf("replay of %+v (real threads, at most %d rounds / 2 min)\n", st, st.Rounds)
+			if v := replayStress(st); v != nil {
+				fmt.Printf("monitor: FAILS: %s\n", v.what)
+				os.Exit(1)
+			}
+			fmt.Println("no clause violated")
+			return
+		}
 		o := runScenario(t, &sc, nil, 0)
 		fmt.Printf("replay of %s\n", sc.key())
 		for _, l := range o.Lines {
@@ -1052,6 +1131,17 @@ func TestVerif(t *testing.T) {
 		return
 	}
 
+	// real-threads phase first (stress_test.go): the tail of the index hand-out with all workers coming
+	// back at once. A stray index found here is written out at once and switches the Map variants off (in
+	// them a stray index is an index-out-of-range panic inside a library goroutine, which nothing recovers).
+	stressBudget := 1500 * time.Millisecond
+	if env.Thorough() || env.Deep {
+		stressBudget = 12 * time.Second
+	}
+	if stressPhase(res, stressBudget) {
+		outOfRange = true
+		res.Write(env.Out)
+	}
 	// probe: Do/DoContext on small configurations before anything else (see outOfRange)
 	for _, mode := range []string{"do", "dc"} {
 		for p := -1; p <= 3; p++ {
@@ -1074,6 +1164,8 @@ func TestVerif(t *testing.T) {
 					for k := 0; k < n; k++ {
 						sc := base
 						sc.Fail = []int{k}
+						list = append(list, sc)
+						sc.FailWrap = 1 + (k+n+lm)%2 // the same failure with an error that wraps a context error
 						list = append(list, sc)
 					}
 					for _, c := range []int{-1, 3} {
@@ -1210,7 +1302,7 @@ func TestVerifRace(t *testing.T) {
 			err = parallel.DoContext(bg, p, n, func(ctx context.Context, i int) error {
 				eff[i] = i + 1
 				if i == failAt {
-					return &callErr{i}
+					return &callErr{k: i}
 				}
 				return nil
 			})
@@ -1220,7 +1312,7 @@ func TestVerifRace(t *testing.T) {
 			out, err = parallel.MapContext(bg, p, in, func(ctx context.Context, x int) (int, error) {
 				eff[x] = x + 1
 				if x == failAt {
-					return 0, &callErr{x}
+					return 0, &callErr{k: x}
 				}
 				return x * 2, nil
 			})
